@@ -371,4 +371,42 @@ theorem particleSpeed_physical (e m : ℝ) (he : 0 ≤ e) (hm : 0 < m) :
     apply Real.sqrt_pos.mpr
     nlinarith
 
+/-- the validation the code performs establishes the hypothesis the grid theorems assume:
+    `strictlyIncreasing` (the `CELER_VALIDATE` loop of the optical `MaterialParams`) gives a
+    chain, hence every earlier knot is below every later one -/
+theorem strictlyIncreasing_pairwise : ∀ l : List ℝ, strictlyIncreasing l = true →
+    l.Pairwise (· < ·)
+  | [], _ => List.Pairwise.nil
+  | [a], _ => List.pairwise_singleton _ a
+  | a :: b :: rest, h => by
+    simp only [strictlyIncreasing, Bool.and_eq_true, NumR.lt_real] at h
+    have ih := strictlyIncreasing_pairwise (b :: rest) h.2
+    refine List.Pairwise.cons ?_ ih
+    intro c hc
+    rcases List.mem_cons.mp hc with rfl | hc'
+    · exact h.1
+    · exact lt_trans h.1 ((List.pairwise_cons.mp ih).1 c hc')
+
+/-- ★ a refractive-index table that passes the code's validation is a `Sorted` grid with at
+    least one knot — the well-formedness premise of `cerenkov_energy_in_grid` and the grid
+    lemmas is exactly what the constructor enforces, not an extra assumption -/
+theorem refractiveValid_sorted (es ns ints : List ℝ) (h : refractiveValid es ns = true) :
+    (CerMat.ofLists es ns ints).ri.Sorted ∧ 0 < (CerMat.ofLists es ns ints).ri.size ∧
+    (CerMat.ofLists es ns ints).ri.xs.size = (CerMat.ofLists es ns ints).ri.ys.size := by
+  simp only [refractiveValid, Bool.and_eq_true, Bool.not_eq_true', beq_iff_eq] at h
+  obtain ⟨⟨⟨hne, hlen⟩, hes⟩, _⟩ := h
+  have hp := strictlyIncreasing_pairwise es hes
+  refine ⟨?_, ?_, ?_⟩
+  · intro i j hij hj
+    simp only [CerMat.ofLists, Grid.size, List.size_toArray] at hj
+    simp only [CerMat.ofLists, Grid.x, Array.getD_eq_getD_getElem?, List.getElem?_toArray]
+    have hi : i < es.length := by omega
+    rw [List.getElem?_eq_getElem hi, List.getElem?_eq_getElem hj]
+    exact List.pairwise_iff_getElem.mp hp i j hi hj hij
+  · simp only [CerMat.ofLists, Grid.size, List.size_toArray]
+    cases es with
+    | nil => simp at hne
+    | cons a l => simp
+  · simp only [CerMat.ofLists, List.size_toArray]; exact hlen
+
 end CelerVerif.Optical
